@@ -518,6 +518,9 @@ def known_findings():
     return out
 
 
+NO_EVIDENCE = False
+
+
 def parent(tier, master, runs, workers, budget_s):
     t0 = time.time()
     os.makedirs(VERIF + "/target/run", exist_ok=True)
@@ -622,7 +625,8 @@ def parent(tier, master, runs, workers, budget_s):
         "wall_s": wall,
         "violations": len(reported),
     }
-    json.dump(ev, open(VERIF + "/evidence/C27.json", "w"), indent=1)
+    if not NO_EVIDENCE:
+        json.dump(ev, open(VERIF + "/evidence/C27.json", "w"), indent=1)
     print("c27: property=C27 runs=%d distinct_nontrivial=%d wall=%.1fs batch_fingerprint=%016x violations=%d" % (merged["runs"], len(fps), wall, merged["digest"], len(reported)))
     for r in reach:
         print("REACH-WARNING: " + r)
@@ -661,6 +665,9 @@ def main():
         elif a[i] == "--budget-s":
             budget = float(a[i + 1])
             i += 1
+        elif a[i] == "--no-evidence":
+            global NO_EVIDENCE
+            NO_EVIDENCE = True
         elif a[i] == "--replay":
             return replay(a[i + 1])
         elif a[i] in ("quick", "thorough"):
